@@ -242,10 +242,14 @@ func genC08(repo string) (string, error) {
 	// shape of the two build paths: order of the exec* calls
 	execs := set("execAddPeer", "execPromoteLearner", "execDemoteFollower", "execRemovePeer", "execTransferLeader",
 		"execChangePeerV2", "setTargetLeaderIfNotExist", "peerPlan", "initStepPlanPreferFuncs", "IsEmpty")
-	for _, fn := range []string{"buildStepsWithJointConsensus", "buildStepsWithoutJointConsensus", "execChangePeerV2"} {
+	for _, fn := range []string{"buildStepsWithJointConsensus", "buildStepsWithoutJointConsensus"} {
 		if err := o.skeleton(f, "Builder", fn, "skel_"+fn, goast.SkelOpt{Calls: execs, Conds: true}); err != nil {
 			return "", err
 		}
+	}
+	if err := o.skeleton(f, "Builder", "execChangePeerV2", "skel_execChangePeerV2",
+		goast.SkelOpt{Calls: execs, Assigns: set("steps", "toPromote", "toDemote"), Conds: true}); err != nil {
+		return "", err
 	}
 	fd, err = get("buildStepsWithJointConsensus")
 	if err != nil {
@@ -282,6 +286,15 @@ func genC08(repo string) (string, error) {
 	if err != nil {
 		return "", err
 	}
+	lfd, err := sf.Func("ChangePeerV2Leave", "ConfVerChanged")
+	if err != nil {
+		return "", err
+	}
+	largs := c08CallArgs(sf, lfd, "GetStorePeer")
+	if len(largs) != 1 {
+		return "", fmt.Errorf("%s: ChangePeerV2Leave.ConfVerChanged: expected exactly one GetStorePeer call, found %d", sf.Path, len(largs))
+	}
+	fmt.Fprintf(&o.sb, "Definition leave_cvc_lookup_arg : string := %s. (* step.go ChangePeerV2Leave.ConfVerChanged: argument of GetStorePeer *)\n", goast.Q(largs[0]))
 	kinds := c08StepKinds(sf)
 	if len(kinds) == 0 {
 		return "", fmt.Errorf("%s: no OpStep implementation found", sf.Path)
